@@ -51,6 +51,9 @@ func (t *HTag) BeforeCreate(tx *gorm.DB) error {
 	return nil
 }
 
+// keptCols06: the caller's own list of columns, with room behind its two elements
+var keptCols06 = append(make([]string, 0, 8), "c1", "c2")
+
 // HOwner and its relations: what Select(<relations>).Delete walks.
 type HOwner struct {
 	ID   int64 `gorm:"primaryKey"`
@@ -164,6 +167,11 @@ func genStep(seed uint64, root *gorm.DB) step06 {
 	case k == 29:
 		c := g.simpleCond(root, 0)
 		return step06{desc: "Where(" + c.desc + ")", apply: func(db *gorm.DB) *gorm.DB { return db.Where(c.query, c.args...) }}
+	case k == 31:
+		// a column list the caller keeps (a slice with spare capacity) handed to Select together with one more column:
+		// what Select appends must not land in the caller's slice, which the next call hands in again
+		extra := []string{"c3", "c5", "c6", "c8"}[(seed>>5)%4]
+		return step06{desc: fmt.Sprintf("Select(keptCols, %q)", extra), apply: func(db *gorm.DB) *gorm.DB { return db.Select(keptCols06[:2], extra) }}
 	case k == 30:
 		// relations selected for a delete (with a nested path), in the orders an application may write them
 		sels := [][]string{{"Acct", "Kids", "Kids.Toys"}, {"Kids", "Kids.Toys", "Acct"}, {"Kids.Toys", "Kids"}, {"Acct", "Kids"}}[(seed>>5)%4]
@@ -431,6 +439,9 @@ func run06(c *core.Ctx) {
 	}
 	if r.Chance(1, 4) {
 		palette = append(palette, 30, 30)
+	}
+	if r.Chance(1, 4) {
+		palette = append(palette, 31, 31)
 	}
 	stepSeed := func() uint64 { return (r.U64() &^ 31) | uint64(core.Pick(r, palette)) }
 	for i := 0; i < nops; i++ {
